@@ -577,10 +577,26 @@ func (h *HttpServer) handleStreamExchange(w http.ResponseWriter, r *http.Request
 		return
 	}
 
+	// The state comes out of a client-presented token. A token minted by a
+	// method of the other stream kind authenticates just as well, so the
+	// dynamic type has to be checked rather than asserted: an unchecked
+	// assertion panics outside any recover and aborts the HTTP exchange.
 	if isProducer {
-		handlerErr = h.handleProducerContinuation(ctx, w, outputSchema, tokenData.State.(ProducerState), info, stats, auth, transportMeta, cookies, streamID, tokenData.CallID, stickySinkForCtx, inputMeta)
+		producerState, ok := tokenData.State.(ProducerState)
+		if !ok {
+			handlerErr = &RpcError{Type: "RuntimeError", Message: "Malformed state token"}
+			h.writeHttpError(w, http.StatusBadRequest, handlerErr, nil)
+			return
+		}
+		handlerErr = h.handleProducerContinuation(ctx, w, outputSchema, producerState, info, stats, auth, transportMeta, cookies, streamID, tokenData.CallID, stickySinkForCtx, inputMeta)
 	} else {
-		handlerErr = h.handleExchangeCall(ctx, w, inputBatch, inputMeta, outputSchema, tokenData.State.(ExchangeState), info, stats, auth, transportMeta, cookies, streamID, tokenData.CallID, stickySinkForCtx)
+		exchangeState, ok := tokenData.State.(ExchangeState)
+		if !ok {
+			handlerErr = &RpcError{Type: "RuntimeError", Message: "Malformed state token"}
+			h.writeHttpError(w, http.StatusBadRequest, handlerErr, nil)
+			return
+		}
+		handlerErr = h.handleExchangeCall(ctx, w, inputBatch, inputMeta, outputSchema, exchangeState, info, stats, auth, transportMeta, cookies, streamID, tokenData.CallID, stickySinkForCtx)
 	}
 }
 
